@@ -14,6 +14,11 @@ RULE = ("random histories of 0-40 records with group keys over {strings incl. ''
 
 
 def gen_unit(rng):
+    if rng.random() < 0.03:
+        # the rows are strings and the key is the row itself: `.` is a selection like any other
+        vals = [rng.choice(["a", "b", "", "k\"q", "\u00e9 x", "src", "vf", 5, None, ["a"], {"a": 1}]) for _ in range(rng.choice((0, 1, 3, 8, 20)))]
+        return {"input": records.to_input(vals, rng), "args": rng.choice(([], ["--unique"], ["--filter", "(string? .)"], ["--take", "5"])), "out": rng.choice([[], ["--style", "consise"]]),
+                "upstream": ["dot-key"], "mode": "group", "keycol": None, "groupexpr": rng.choice((".", ".", "(default . 1)", "(| . .)"))}
     recs = records.gen_records(rng)
     for r in recs:
         if rng.random() < 0.3:
@@ -91,7 +96,7 @@ def gen_unit(rng):
 
 def run_unit(ctx, unit):
     st = ctx.stats
-    gargs = unit["args"] + (["--group-by", ".g"] if unit["mode"] == "group" else ["--merge"]) + unit["out"]
+    gargs = unit["args"] + (["--group-by", unit.get("groupexpr", ".g")] if unit["mode"] == "group" else ["--merge"]) + unit["out"]
     if unit.get("pieces"):
         files = [("q%d.json" % (len(unit["pieces"]) - i), p) for i, p in enumerate(unit["pieces"])]
         fargs = ["@D@/" + n for n, _ in files]
@@ -136,7 +141,7 @@ def run_unit(ctx, unit):
         want = {}
         dropped = 0
         for r in R:
-            k = r.get(unit.get("keycol", "g")) if isinstance(r, dict) else None
+            k = r if unit.get("groupexpr") else r.get(unit.get("keycol", "g")) if isinstance(r, dict) else None
             if isinstance(k, str):
                 want.setdefault(k, []).append(r)
             else:
